@@ -10,9 +10,9 @@ Termination: every model function is accepted by Lean's termination checker (str
 measures `end - n`, `n - end`, `c`); the one Rust loop that makes no progress is the explicit
 outcome `Panic.hang`.
 
-Where brush violates the statement the full-strength `Prop` is kept (`…_full`), refuted on a
-concrete witness (`…_cex`) and proved under a decidable guard (`…_partial`), or — stronger — the set
-of panicking inputs is characterised exactly (`…_iff`).  The tokenizer, the PEG parsers, the
+All hot spots that used to panic (`${x:2:-5}`, `{99999999999999999999}`, `{z..a..200}`,
+`{z..a..4294967296}`, `history 5`) have been repaired in /repo; the models follow the repaired code
+and the former `_cex` witnesses are now positive theorems (`…_former_cex`).  The tokenizer, the PEG parsers, the
 interpreter, the highlighter, completion and prompt expansion are *explored* by `tools/c01.py`
 (fuzzing), not proved.
 -/
@@ -114,144 +114,105 @@ theorem index_norm_negative (alen : Nat) (idx : Int) (hp : Len alen) (hi : I64 i
 example : indexKey 3 (-1) = .ok (some 2) := by
   rw [index_norm_negative 3 (-1) (by decide) (by decide) (by decide)]; simp
 
-/-! ## brace expansion -/
+/-! ## brace expansion
 
-/-- rule `number()` never panics.  FALSE for brush (`digits.parse::<i64>().unwrap()`). -/
-def brace_number_no_panic_full : Prop := ∀ (neg : Bool) (digits : Nat), ∃ v, braceNumber neg digits = .ok v
+Since the repairs of `number()` and `expand_brace_expr_member` these code paths contain no plain
+operator, `unwrap` or truncating cast any more: the models are pure total functions (no `Panic`
+outcome in their type, termination by the measures `end - n`, `n - end`, `c`), so panic-freedom and
+termination hold by construction.  What is left to prove is that the values stay where the later
+steps (`to_string`, `char::from_u32`) need them. -/
 
-theorem brace_number_no_panic_cex : ¬ brace_number_no_panic_full := by
-  intro h
-  obtain ⟨v, hv⟩ := h false 9223372036854775808
-  simp [braceNumber, I64_MAX] at hv
-
-/-- `{…digits…` panics the word parser exactly when the digits do not fit an `i64`. -/
-theorem brace_number_panics_iff (neg : Bool) (digits : Nat) :
-    (∃ v, braceNumber neg digits = .ok v) ↔ digits ≤ 9223372036854775807 := by
-  unfold braceNumber I64_MAX
-  by_cases h : (digits : Int) ≤ 9223372036854775807
-  · rw [if_pos h]
-    have : i64Mul digits (if neg then -1 else 1) = .ok ((digits : Int) * (if neg then -1 else 1)) := by
-      unfold i64Mul
-      rw [(inI64_iff _).mpr (by cases neg <;> simp <;> omega)]; rfl
-    rw [this]
-    constructor
-    · intro _; omega
-    · intro _; exact ⟨_, rfl⟩
-  · rw [if_neg h]
+/-- rule `number()` yields exactly the `i64` values; digits that do not fit make the rule fail (the
+word then stays literal) — formerly `digits.parse::<i64>().unwrap()` panicked on them -/
+theorem brace_number_some_iff (neg : Bool) (digits : Nat) :
+    (∃ v, braceNumber neg digits = some v) ↔ I64 (if neg then -(digits : Int) else digits) := by
+  unfold braceNumber I64
+  simp only
+  cases h : inI64 (if neg then -(digits : Int) else digits)
+  · simp only [Bool.false_eq_true, if_false]
     constructor
     · rintro ⟨v, hv⟩; cases hv
-    · intro h'; omega
+    · intro hr; rw [(inI64_iff _).mpr hr] at h; cases h
+  · simp only [if_true]
+    exact ⟨fun _ => (inI64_iff _).mp h, fun _ => ⟨_, rfl⟩⟩
 
-/-- numeric sequences never panic.  FALSE for brush (`n - increment` near `i64::MIN`). -/
-def brace_numseq_no_panic_full : Prop :=
-  ∀ (s e i : Int), I64 s → I64 e → I64 i → ∃ ws, numSeq s e i = .ok ws
+theorem brace_number_value_in_range (neg : Bool) (digits : Nat) (v : Int)
+    (h : braceNumber neg digits = some v) : I64 v := by
+  unfold braceNumber at h
+  simp only at h
+  cases hin : inI64 (if neg then -(digits : Int) else digits)
+  · rw [hin] at h; simp at h
+  · rw [hin] at h
+    simp only [if_true, Option.some.injEq] at h
+    subst h
+    exact (inI64_iff _).mp hin
 
-/-- `echo {0..-9223372036854775807..9223372036854775807}` panics (braceexpansion.rs:51). -/
-theorem brace_numseq_no_panic_cex : ¬ brace_numseq_no_panic_full := by
-  intro h
-  obtain ⟨ws, hw⟩ := h 0 (-9223372036854775807) 9223372036854775807 (by decide) (by decide) (by decide)
-  have hstep : asI64 (stepOf 9223372036854775807) = 9223372036854775807 := by decide
-  have h1 : descFrom (0 - 9223372036854775807) (-9223372036854775807) 9223372036854775807 = .error .subOverflow :=
-    descFrom_overflow _ _ _ (by decide) (by decide)
-  have h0 : descFrom 0 (-9223372036854775807) 9223372036854775807 = .error .subOverflow :=
-    descFrom_step _ _ _ (by decide) (by decide) (by decide) h1
+example : braceNumber false 99999999999999999999 = none := by decide
+example : braceNumber true 9223372036854775808 = some (-9223372036854775808) := by decide
+
+/-- every word of a numeric sequence lies between its two ends (so it is an `i64` whenever the ends
+are: nothing wraps), whatever the increment — including 0, `i64::MIN` and steps larger than the
+whole range -/
+theorem brace_numseq_in_range (s e i w : Int) (hw : w ∈ numSeq s e i) :
+    min s e ≤ w ∧ w ≤ max s e := by
   unfold numSeq at hw
-  rw [if_neg (by decide), hstep, h0] at hw
-  cases hw
+  split at hw
+  · have := ascFrom_mem _ _ _ _ hw; omega
+  · rcases List.mem_cons.mp hw with h | h
+    · subst h; omega
+    · have := descFrom_mem _ _ _ _ h; omega
 
-/-- guard: ascending, or the step (its absolute value; 0 counts as 1) can still be subtracted from `end` -/
-def NumSeqOk (s e i : Int) : Prop :=
-  s ≤ e ∨ (i ≠ -9223372036854775808 ∧ -9223372036854775808 ≤ e - (if i = 0 then 1 else (i.natAbs : Int)))
-
-/-- `_partial`: inside the guard a numeric sequence never panics (and, by construction, terminates). -/
-theorem brace_numseq_no_panic_partial (s e i : Int) (hs : I64 s) (_he : I64 e) (hi : I64 i)
-    (hg : NumSeqOk s e i) : ∃ ws, numSeq s e i = .ok ws := by
-  unfold I64 at hs hi
+/-- a sequence always starts with its start value (it is never empty) -/
+theorem brace_numseq_head (s e i : Int) : ∃ rest, numSeq s e i = s :: rest := by
   unfold numSeq
-  by_cases hse : s ≤ e
-  · rw [if_pos hse]; exact ⟨_, rfl⟩
-  · rw [if_neg hse]
-    rcases hg with hg | ⟨hmin, hg⟩
-    · exact absurd hg hse
-    · have hstep : (stepOf i : Int) = (if i = 0 then 1 else (i.natAbs : Int)) ∧ stepOf i < 9223372036854775808 := by
-        unfold stepOf unsignedAbs
-        rw [asUsize_nonneg _ (by omega) (by omega)]
-        by_cases h0 : i = 0
-        · subst h0; simp
-        · have : i.natAbs ≠ 0 := by omega
-          simp [h0, this]; omega
-      have hsm : asI64 (stepOf i) = (stepOf i : Int) := asI64_small _ hstep.2
-      have hpos : 0 < asI64 (stepOf i) := by rw [hsm, hstep.1]; split <;> omega
-      obtain ⟨r, hr⟩ := descFrom_ok s e (asI64 (stepOf i)) hpos (by rw [hsm, hstep.1]; exact hg) (by omega) hs.2
-      rw [hr]; exact ⟨_, rfl⟩
+  split
+  · rename_i h; exact ⟨_, ascFrom_head s e _ (stepOf_pos i) h⟩
+  · exact ⟨_, rfl⟩
 
-example : NumSeqOk 5 1 (-2) := by unfold NumSeqOk; right; decide
+/-- the former panic witness `{0..-9223372036854775807..9223372036854775807}` now gives bash's answer -/
+theorem brace_numseq_former_cex :
+    numSeq 0 (-9223372036854775807) 9223372036854775807 = [0, -9223372036854775807] := by
+  have hs : stepOf 9223372036854775807 = 9223372036854775807 := by decide
+  unfold numSeq
+  rw [if_neg (by decide), hs, descFrom_step _ _ _ (by decide), descFrom_stop _ _ _ (by decide)]
+  rfl
 
-/-- character sequences never panic or hang.  FALSE for brush, twice. -/
-def brace_charseq_no_panic_full : Prop :=
-  ∀ (s e : Nat) (i : Int), s ≤ 122 → e ≤ 122 → I64 i → ∃ ws, charSeq s e i = .ok ws
-
-/-- `echo {z..a..200}` panics (braceexpansion.rs:76, `c as u32 - increment`). -/
-theorem brace_charseq_no_panic_cex : ¬ brace_charseq_no_panic_full := by
-  intro h
-  obtain ⟨ws, hw⟩ := h 122 97 200 (by decide) (by decide) (by decide)
-  have hstep : asU32 (stepOf 200) = 200 := by decide
+/-- every character of a character sequence lies between its two ends, whatever the increment -/
+theorem brace_charseq_in_range (s e : Nat) (i : Int) (w : Nat) (hw : w ∈ charSeq s e i) :
+    min s e ≤ w ∧ w ≤ max s e := by
   unfold charSeq at hw
-  rw [if_neg (by decide), hstep, descChars_underflow 122 97 200 (by decide) (by decide)] at hw
-  cases hw
+  split at hw
+  · have := ascChars_mem _ _ _ _ hw; omega
+  · rcases List.mem_cons.mp hw with h | h
+    · subst h; omega
+    · have := descChars_mem _ _ _ _ h; omega
 
-/-- `echo {z..a..4294967296}` never finishes: `increment as u32` is 0 and the iterator repeats `z`. -/
-theorem brace_charseq_hang_cex : charSeq 122 97 4294967296 = .error .hang := by
-  have hstep : asU32 (stepOf 4294967296) = 0 := by decide
+/-- the former panic witness `{z..a..200}` and the former hang witness `{z..a..4294967296}` now both
+give bash's answer, `z` -/
+theorem brace_charseq_former_cex :
+    charSeq 122 97 200 = [122] ∧ charSeq 122 97 4294967296 = [122] := by
+  have h1 : stepU32 (stepOf 200) = 200 := by decide
+  have h2 : stepU32 (stepOf 4294967296) = 4294967295 := by decide
   unfold charSeq
-  rw [if_neg (by decide), hstep, descChars_hang]
+  rw [if_neg (by decide), h1, h2, descChars_stop _ _ _ (by decide), descChars_stop _ _ _ (by decide)]
+  exact ⟨rfl, rfl⟩
 
-/-- guard: ascending, or the step as brush truncates it (`as u32`, 0 → 1 before truncation) is non-zero
-and at most the end character's code point -/
-def CharSeqOk (s e : Nat) (i : Int) : Prop :=
-  s ≤ e ∨ (0 < asU32 (if i = 0 then 1 else i.natAbs) ∧ asU32 (if i = 0 then 1 else i.natAbs) ≤ e)
-
-/-- `_partial`: inside the guard a character sequence neither panics nor hangs. -/
-theorem brace_charseq_no_panic_partial (s e : Nat) (i : Int) (hi : I64 i) (hg : CharSeqOk s e i) :
-    ∃ ws, charSeq s e i = .ok ws := by
-  unfold I64 at hi
-  unfold charSeq
-  by_cases hse : s ≤ e
-  · rw [if_pos hse]; exact ⟨_, rfl⟩
-  · rw [if_neg hse]
-    rcases hg with hg | ⟨hpos, hle⟩
-    · exact absurd hg hse
-    · have hinc : stepOf i = (if i = 0 then 1 else i.natAbs) := by
-        unfold stepOf unsignedAbs
-        rw [asUsize_nonneg _ (by omega) (by omega)]
-        by_cases h0 : i = 0
-        · subst h0; simp
-        · have : i.natAbs ≠ 0 := by omega
-          simp [h0, this]
-      rw [hinc]
-      obtain ⟨r, hr⟩ := descChars_ok s e _ hpos hle (by omega)
-      rw [hr]; exact ⟨_, rfl⟩
-
-example : CharSeqOk 122 97 (-2) := by unfold CharSeqOk asU32; right; decide
+/-- the step a descending character sequence uses is never 0 (the cast `as u32` that made it 0 is gone):
+each produced character is strictly below the previous one, which is why the loop ends -/
+theorem brace_charseq_step_positive (i : Int) : 0 < stepU32 (stepOf i) := by
+  have := stepOf_pos i
+  unfold stepU32; split <;> omega
 
 /-! ## `history N` -/
 
-/-- `history N` never panics.  FALSE for brush (`item_count - max_entries`). -/
-def history_display_no_panic_full : Prop :=
-  ∀ (count : Nat) (m : Option Nat), ∃ k, histSkip count m = .ok k
+/-- `history N` prints `min N count` entries, for every N — formerly `item_count - max_entries`
+panicked when N exceeded the number of entries -/
+theorem history_display_count (count : Nat) (m : Option Nat) :
+    count - histSkip count m = min count (m.getD count) := by
+  unfold histSkip; omega
 
-theorem history_display_no_panic_cex : ¬ history_display_no_panic_full := by
-  intro h
-  obtain ⟨k, hk⟩ := h 3 (some 5)
-  simp [histSkip, usizeSub] at hk
-
-/-- `history N` panics exactly when N exceeds the number of entries. -/
-theorem history_display_panics_iff (count : Nat) (m : Option Nat) :
-    (∃ k, histSkip count m = .ok k) ↔ m.getD count ≤ count := by
-  unfold histSkip usizeSub
-  by_cases h : m.getD count ≤ count <;> simp [h]
-
-example : histSkip 3 (some 2) = .ok 1 := by simp [histSkip, usizeSub]
+example : histSkip 3 (some 5) = 0 := by decide
+example : histSkip 3 (some 2) = 1 := by decide
 
 /-! ## `break N` / `continue N` -/
 
